@@ -394,6 +394,46 @@ def fam_api_noindex(rng, idx):
             "net": net, "steps": steps}
 
 
+MYFMT_MODULE = """from naunet.network import define_reaction
+from naunet.reactions.reaction import Reaction
+from naunet.reactiontype import ReactionType
+
+
+@define_reaction("{name}")
+class ProjectReaction(Reaction):
+    \"\"\"Project-specific text format: 'reactants;products;alpha;beta'\"\"\"
+
+    def __init__(self, react_string):
+        super().__init__(react_string=react_string)
+
+    def _parse_string(self, react_string):
+        self.source = "{name}"
+        r, p, a, b = react_string.strip().split(";")
+        self.reactants = [self._create_species(x) for x in r.split() if self._create_species(x)]
+        self.products = [self._create_species(x) for x in p.split() if self._create_species(x)]
+        self.alpha = float(a) * {scale}
+        self.beta = float(b)
+        self.reaction_type = ReactionType.GAS_TWOBODY
+"""
+
+
+def fam_cli_loads(rng, idx):
+    """A project that brings its own reaction format in a Python module listed under `loads`."""
+    name = ["myfmt", "myfmt", "labfmt"][idx % 3]  # two projects may pick the same format name
+    scale = [1.0, 2.0, 1.0][idx % 3]
+    reacs = [("H H", "H2"), ("C O", "CO"), ("O H2", "H2O"), ("O O", "O2"), ("H O", "OH"), ("C+ e-", "C"), ("H+ e-", "H")]
+    rng.shuffle(reacs)
+    reacs = reacs[: rng.randint(3, 6)]
+    content = "".join(f"{r};{p};{(i + 1) * 1.7e-11!r};{-0.5 if i % 2 else 0.0}\n" for i, (r, p) in enumerate(reacs))
+    net = dict(MIXED)
+    cli = {"files": [f"net.{name}"], "formats": [name], "loads": ["projectformat.py"]}
+    cli["solver"], cli["method"], cli["device"] = rng.choice(METHODS)
+    steps = [{"s": "cli_render"}] + ([{"s": "cli_render"}] if rng.random() < 0.6 else [])
+    return {"id": f"cli-loads-{name}-{idx}", "family": f"cli-loads-{name}", "entry": "cli", "name": "simproj",
+            "files": {f"net.{name}": content, "projectformat.py": MYFMT_MODULE.format(name=name, scale=scale)},
+            "net": net, "cli": cli, "steps": steps}
+
+
 def fam_empty(rng, idx):
     lists = rng.choice([MIXED, UPPER, {"elements": ["H", "C"], "pseudo_elements": []}])
     return {"id": f"api-empty-{idx}", "family": "api-empty", "entry": "api", "name": "simproj", "files": {},
@@ -420,6 +460,8 @@ def build_library(seed, tier):
         if i % 2 == 0:
             lib.append(fam_api_leeds(rng, i))
         lib.append(fam_api_noindex(rng, i))
+        if i < 3:
+            lib.append(fam_cli_loads(rng, i))
     lib.append(fam_krome_primordial(rng, 0, "api"))
     lib.append(fam_krome_primordial(rng, 0, "cli"))
     lib.append(fam_empty(rng, 0))
